@@ -1,11 +1,11 @@
 CONSTANTS
   StartLines <- SL_All
   Cat <- Catalogue
-  HdrIdx = {1,2,3,4,5,6,7,8,9,10,11,12,13,14,15,16,17,18,19,20,21,22}
+  HdrIdx = {1,6,9,11,14,16,17,19,21,24,26,29,32}
   MaxH = 1
   Bodies <- Bodies6
   Peers <- PeersTwo
-  ClNames <- ClTwo
+  ClNames <- ClThree
   ClPos = {"first","last"}
   Mode = "lemma"
   Cap = 8192
